@@ -24,11 +24,12 @@ struct Arena {
 };
 
 struct ConcRun {
+    static const int NKINDS = 30;
     RunEnv& env; Rep& R; int view; const Plan& plan;
     Arena sh;                       // shared inputs, sealed read-only during the task phases
     // shared objects
-    void *g1p[3], *g2p[3], *prep, *gt, *wparams, *wmsk, *wkey, *wct, *wsig, *lqparams, *lqid, *lqsk, *lqct;
-    std::vector<uint8_t> params_bytes;
+    void *g1p[3], *g2p[3], *prep, *gt, *wparams, *wmsk, *wkey, *wct, *wsig, *lqparams, *lqmsk, *lqid, *lqsk, *lqct;
+    std::vector<uint8_t> params_bytes, key_bytes, ct_bytes, sig_bytes;
     struct TaskOut { std::vector<std::string> digests; uint64_t stream_requests = 0; std::string err; };
     ConcRun(RunEnv& e, const Plan& p) : env(e), R(*e.rep), view(e.view), plan(p) {}
 
@@ -55,8 +56,9 @@ struct ConcRun {
         R.jv_wk_keygen(view, wkey, wparams, wmsk, &al, jv_rand_cb);
         wct = sh.take(R.sz(JV_SZ_WK_CT)); R.jv_wk_encrypt(view, wct, gt, wparams, &al, jv_rand_cb);
         wsig = sh.take(R.sz(JV_SZ_WK_SIG)); uint8_t m[32] = {7}; R.jv_wk_sign(view, wsig, wparams, wkey, &al, m, jv_rand_cb);
+        { size_t n = R.jv_wk_get_marshalled_length(view, JV_OK_WK_SK, wkey, 0); key_bytes.resize(n); R.jv_wk_marshal(view, JV_OK_WK_SK, key_bytes.data(), wkey, 0); n = R.jv_wk_get_marshalled_length(view, JV_OK_WK_CT, wct, 1); ct_bytes.resize(n); R.jv_wk_marshal(view, JV_OK_WK_CT, ct_bytes.data(), wct, 1); n = R.jv_wk_get_marshalled_length(view, JV_OK_WK_SIG, wsig, 0); sig_bytes.resize(n); R.jv_wk_marshal(view, JV_OK_WK_SIG, sig_bytes.data(), wsig, 0); }
         size_t pl = R.jv_wk_get_marshalled_length(view, JV_OK_WK_PARAMS, wparams, 1); params_bytes.resize(pl); R.jv_wk_marshal(view, JV_OK_WK_PARAMS, params_bytes.data(), wparams, 1);
-        lqparams = sh.take(R.sz(JV_SZ_LQ_PARAMS)); void* lqmsk = sh.take(R.sz(JV_SZ_LQ_MSK)); R.jv_lq_setup(view, lqparams, lqmsk, jv_rand_cb);
+        lqparams = sh.take(R.sz(JV_SZ_LQ_PARAMS)); lqmsk = sh.take(R.sz(JV_SZ_LQ_MSK)); R.jv_lq_setup(view, lqparams, lqmsk, jv_rand_cb);
         lqid = sh.take(R.sz(JV_SZ_LQ_ID)); uint8_t hs[48]; st.rng.fill(hs, 48); R.jv_lq_compute_id_from_hash(view, lqid, hs);
         lqsk = sh.take(R.sz(JV_SZ_LQ_SK)); R.jv_lq_keygen(view, lqsk, lqmsk, lqid);
         lqct = sh.take(R.sz(JV_SZ_LQ_CT)); uint8_t sym[16]; HashStub hsb; tl_hash = &hsb; R.jv_lq_encrypt(view, lqct, sym, 16, lqparams, lqid, jv_hash_cb, jv_rand_cb);
@@ -66,19 +68,20 @@ struct ConcRun {
 
     // Per-task scratch: everything a script may write, allocated before the concurrent phase.
     struct Scratch {
-        Buf gt1, g1, g2, g1a, key, keyb, ct, sig, params, paramsh, ap, pp, lqct; uint8_t sym[64]; Frv fr;
+        Buf gt1, g1, g2, g1a, g2a, key, keyb, key2, keyb2, ct, sig, pre, params, paramsh, ap, pp, lqct, lqsk, bytes; uint8_t sym[64]; Frv fr;
         Stream stream; HashStub hash;
         void init(Rep& R) {
             gt1.alloc(576); g1.alloc(144); g2.alloc(288); g1a.alloc(R.sz(JV_SZ_G1A)); key.alloc(R.sz(JV_SZ_WK_SK)); keyb.alloc(4 * R.sz(JV_SZ_WK_FREESLOT));
             ct.alloc(R.sz(JV_SZ_WK_CT)); sig.alloc(R.sz(JV_SZ_WK_SIG)); params.alloc(R.sz(JV_SZ_WK_PARAMS)); paramsh.alloc(3 * R.sz(JV_SZ_G1));
-            ap.alloc(2 * R.sz(JV_SZ_APAIR)); pp.alloc(R.sz(JV_SZ_PPAIR)); lqct.alloc(R.sz(JV_SZ_LQ_CT));
+            ap.alloc(2 * R.sz(JV_SZ_APAIR)); pp.alloc(R.sz(JV_SZ_PPAIR)); lqct.alloc(R.sz(JV_SZ_LQ_CT)); lqsk.alloc(R.sz(JV_SZ_LQ_SK));
+            g2a.alloc(R.sz(JV_SZ_G2A)); key2.alloc(R.sz(JV_SZ_WK_SK)); keyb2.alloc(4 * R.sz(JV_SZ_WK_FREESLOT)); pre.alloc(R.sz(JV_SZ_WK_PRE)); bytes.alloc(4096);
             stream.reqs.reserve(4096);
         }
     };
 
     // Execute one script op; returns a digest of every output. No allocation between InLib guards.
     std::string exec(const Op& op, Scratch& s) {
-        Rep& r = R; int k = (int) op.arg(0) % 18; uint64_t a = (uint64_t) op.arg(1), b = (uint64_t) op.arg(2);
+        Rep& r = R; int k = (int) op.arg(0) % NKINDS; uint64_t a = (uint64_t) op.arg(1), b = (uint64_t) op.arg(2);
         uint8_t sc[32]; { Rng rr(a * 31 + b); rr.fill(sc, 32); }
         s.stream.reseed(mix3(a, b, 99)); s.stream.begin_call(4096); s.hash.calls.clear();
         tl_stream = &s.stream; tl_hash = &s.hash;
@@ -104,6 +107,18 @@ struct ConcRun {
         case 15: { { InLib g; r.jv_lq_encrypt(view, s.lqct, s.sym, 32, lqparams, lqid, jv_hash_cb, jv_rand_cb); } d = hex(s.sym, 32) + strf(":%zu", s.hash.calls.size()); break; }
         case 16: { { InLib g; r.jv_lq_decrypt(view, s.sym, 16, lqct, lqsk, lqid, jv_hash_cb); } d = hex(s.sym, 16); break; }
         case 17: { r.jv_wk_params_init(s.params, s.paramsh, 3); int ok; { InLib g; ok = r.jv_wk_unmarshal(view, JV_OK_WK_PARAMS, s.params, params_bytes.data(), 1, (int) (a & 1)); } std::vector<uint8_t> bb = marshal_digest(JV_OK_WK_PARAMS, s.params); d = strf("%d:", ok) + sha_hex(bb.data(), bb.size(), 12); break; }
+        case 18: { jv_attrs al = mk_attrs(at, 2); { InLib g; r.jv_wk_precompute(view, s.pre, wparams, &al); r.jv_wk_encrypt_precomputed(view, s.ct, gt, wparams, s.pre, jv_rand_cb); } std::vector<uint8_t> bb = marshal_digest(JV_OK_WK_CT, s.ct); d = sha_hex(bb.data(), bb.size(), 12); break; }
+        case 19: { r.jv_wk_sk_init(s.key, s.keyb); jv_attrs al = mk_attrs(at, 1); { InLib g; r.jv_wk_precompute(view, s.pre, wparams, &al); r.jv_wk_resamplekey(view, s.key, wparams, s.pre, wkey, (int) (a & 1), jv_rand_cb); } d = key_digest(s.key); break; }
+        case 20: { r.jv_wk_sk_init(s.key, s.keyb); jv_attrs f = mk_attrs(at, 2), t3 = mk_attrs(at, 3), t1 = mk_attrs(at, 1); { InLib g; r.jv_wk_nd_qualifykey(view, s.key, wparams, wkey, &f); r.jv_wk_adjust_nd(view, s.key, wkey, &f, (a & 1) ? &t3 : &t1); } d = key_digest(s.key); break; }
+        case 21: { jv_attrs al = mk_attrs(at, 1); int ok; { InLib g; r.jv_wk_precompute(view, s.pre, wparams, &al); r.jv_wk_sign_precomputed(view, s.sig, wparams, wkey, &al, s.pre, sc, jv_rand_cb); ok = r.jv_wk_verify_precomputed(view, wparams, s.pre, s.sig, sc); } std::vector<uint8_t> bb = marshal_digest(JV_OK_WK_SIG, s.sig); d = strf("%d:", ok) + sha_hex(bb.data(), bb.size(), 12); break; }
+        case 22: { uint8_t h[96]; Rng rr(a); rr.fill(h, 96); { InLib g; r.jv_g2affine_from_hash(view, s.g2a, h); } uint8_t c[193]; r.jv_g2a_canon(c, s.g2a); d = sha_hex(c, 193, 12); break; }
+        case 23: { int ok1, ok2; { InLib g; r.jv_g1_marshal(view, s.bytes.p, g1p[a % 3], (int) (b & 1)); ok1 = r.jv_g1_unmarshal(view, s.g1a, s.bytes.p, (int) (b & 1), 1); r.jv_g2_marshal(view, s.bytes.p + 256, g2p[a % 3], (int) (b & 1)); ok2 = r.jv_g2_unmarshal(view, s.g2a, s.bytes.p + 256, (int) (b & 1), 1); } uint8_t c[193]; r.jv_g2a_canon(c, s.g2a); d = strf("%d%d:", ok1, ok2) + sha_hex(s.bytes.p, 512, 12) + sha_hex(c, 193, 6); break; }
+        case 24: { { InLib g; r.jv_gt_marshal(view, s.bytes.p, gt); r.jv_gt_unmarshal(view, s.gt1, s.bytes.p); r.jv_gt_double(view, s.gt1, s.gt1); r.jv_gt_negate(view, s.gt1, s.gt1); r.jv_gt_add(view, s.gt1, s.gt1, gt); } d = sha_hex(s.gt1.p, 576, 12); break; }
+        case 25: { r.jv_wk_sk_init(s.key, s.keyb); int n, ok; { InLib g; n = r.jv_wk_set_length(view, JV_OK_WK_SK, s.key, key_bytes.data(), key_bytes.size(), 0); ok = r.jv_wk_unmarshal(view, JV_OK_WK_SK, s.key, key_bytes.data(), 0, (int) (a & 1)); } d = strf("%d:%d:", n, ok) + key_digest(s.key); break; }
+        case 26: { int ok1, ok2; { InLib g; ok1 = r.jv_wk_unmarshal(view, JV_OK_WK_CT, s.ct, ct_bytes.data(), 1, 1); ok2 = r.jv_wk_unmarshal(view, JV_OK_WK_SIG, s.sig, sig_bytes.data(), 0, 1); } std::vector<uint8_t> bb = marshal_digest(JV_OK_WK_CT, s.ct), b2 = marshal_digest(JV_OK_WK_SIG, s.sig); d = strf("%d%d:", ok1, ok2) + sha_hex(bb.data(), bb.size(), 8) + sha_hex(b2.data(), b2.size(), 8); break; }
+        case 27: { { InLib g; r.jv_lq_keygen(view, s.lqsk, lqmsk, lqid); r.jv_lq_marshal(view, JV_OK_LQ_SK, s.bytes.p, s.lqsk, 1); } d = sha_hex(s.bytes.p, 48, 12); break; }
+        case 28: { uint8_t h[32]; Rng rr(a); rr.fill(h, 32); Frv z; { InLib g; r.jv_zp_random(view, s.fr.b, jv_rand_cb); r.jv_zp_from_hash(view, z.b, h); r.jv_wk_random_gt(view, s.gt1, jv_rand_cb); } d = hex(s.fr.b, 8) + hex(z.b, 8) + sha_hex(s.gt1.p, 576, 8); break; }
+        case 29: { { InLib g; r.jv_g2_random(view, s.g2, jv_rand_cb); } uint8_t c[193]; r.jv_g2_canon(c, s.g2); d = sha_hex(c, 193, 12); break; }
         }
         tl_stream = nullptr; tl_hash = nullptr;
         return d + strf("/%llu", (unsigned long long) s.stream.reqs.size());
@@ -138,10 +153,10 @@ struct ConcRun {
         // interleaving signature: which (from-op-kind, to-op-kind) pairs were interleaved
         for (size_t t = 0; t < ntasks; t++) for (size_t i = 0; i < scripts[t].size(); i++) {
             if (solo[t].digests[i] != conc[t].digests[i])
-                env.fail("C20", "M-solo:concurrent-equals-sequential", strf("task %zu op %zu (kind %lld) produced %s when run concurrently with %zu other tasks (%llu context switches) but %s when run alone", t, i, (long long) scripts[t][i].arg(0) % 18, conc[t].digests[i].c_str(), ntasks - 1, (unsigned long long) sched.switches, solo[t].digests[i].c_str()));
-            env.logf("T%zu op%zu k%lld %s", t, i, (long long) scripts[t][i].arg(0) % 18, solo[t].digests[i].c_str());
+                env.fail("C20", "M-solo:concurrent-equals-sequential", strf("task %zu op %zu (kind %lld) produced %s when run concurrently with %zu other tasks (%llu context switches) but %s when run alone", t, i, (long long) scripts[t][i].arg(0) % NKINDS, conc[t].digests[i].c_str(), ntasks - 1, (unsigned long long) sched.switches, solo[t].digests[i].c_str()));
+            env.logf("T%zu op%zu k%lld %s", t, i, (long long) scripts[t][i].arg(0) % NKINDS, solo[t].digests[i].c_str());
         }
-        std::string kinds; for (size_t t = 0; t < ntasks; t++) { for (auto& op : scripts[t]) kinds += strf("%lld,", (long long) op.arg(0) % 18); kinds += "|"; }
+        std::string kinds; for (size_t t = 0; t < ntasks; t++) { for (auto& op : scripts[t]) kinds += strf("%lld,", (long long) op.arg(0) % NKINDS); kinds += "|"; }
         env.add_case(strf("conc %s ps%lld sw%llu", kinds.c_str(), (long long) plan.c("pswitch", 6), (unsigned long long) std::min<uint64_t>(sched.switches, 50)), sched.switches > 0);
         env.logf("CONC tasks=%zu switches=%llu yields=%llu", ntasks, (unsigned long long) sched.switches, (unsigned long long) sched.global_yield);
     }
@@ -152,7 +167,7 @@ struct ConcScenario : Scenario {
     Plan generate(uint64_t seed, const std::map<std::string, int64_t>&) override {
         Rng r(seed); Plan p; p.scenario = name();
         int tasks = r.range(2, 6); p.cfg["tasks"] = tasks; p.cfg["pswitch"] = r.range(2, 12); p.cfg["sched_seed"] = (int64_t) (r.next() >> 1); p.cfg["setup_seed"] = (int64_t) (r.next() >> 1);
-        for (int t = 0; t < tasks; t++) { int n = r.range(2, 6); for (int i = 0; i < n; i++) p.ops.push_back({"T", {(int64_t) r.below(18), (int64_t) r.below(1000), (int64_t) r.below(1000), t}, {}}); }
+        for (int t = 0; t < tasks; t++) { int n = r.range(2, 6); for (int i = 0; i < n; i++) p.ops.push_back({"T", {(int64_t) r.below(ConcRun::NKINDS), (int64_t) r.below(1000), (int64_t) r.below(1000), t}, {}}); }
         return p;
     }
     void run(const Plan& plan, RunEnv& env) override { ConcRun run(env, plan); run.run(); }
